@@ -75,8 +75,13 @@ fn run(case: &Value) -> Vec<Value> {
         _ => Form::Owned,
     };
     assert_eq!(xs.len(), n);
-    let x = to_array2(&xs, p);
-    let q = to_array2(&qs, p);
+    // `unit` (default 1): the implementation is run on unit * x (still an integer matrix) and every
+    // observation is logged in units of `unit` (lengths / unit, variances / unit^2, whitened components
+    // * unit), so that the specification sees the PCA of x itself. This reaches magnitudes whose
+    // fixed-point images would not fit 32 bits; it is a change of the unit of length, nothing else.
+    let unit = inp.get("unit").and_then(|v| v.as_i64()).unwrap_or(1).max(1) as f64;
+    let x = to_array2(&xs, p) * unit;
+    let q = to_array2(&qs, p) * unit;
     let mut ev: Vec<Value> = vec![];
 
     // embedding sizes to run (default: all of 1..=p); the complete un-whitened fit always comes first
@@ -127,14 +132,14 @@ fn run(case: &Value) -> Vec<Value> {
         };
         ev.push(json!({
             "ev": "fit", "k": k, "wh": wh, "ok": true, "err": "",
-            "mean": fxv(model.mean().iter(), S),
-            "sig": fxv(sig.iter(), S),
+            "mean": fxv(model.mean().iter(), S / unit),
+            "sig": fxv(sig.iter(), S / unit),
             "sigk": sig.iter().map(|v| key64(*v)).collect::<Vec<_>>(),
-            "comp": mat(&comp.view(), if wh { SW } else { S }),
-            "evar": fxv(evar.iter(), S),
+            "comp": mat(&comp.view(), if wh { SW * unit } else { S }),
+            "evar": fxv(evar.iter(), S / (unit * unit)),
             "evr": fxv(evr.iter(), S),
-            "fin": intv(model.mean().iter(), S) && intv(sig.iter(), S) && int2(&comp.view(), if wh { SW } else { S }),
-            "evfin": intv(evar.iter(), S),
+            "fin": intv(model.mean().iter(), S / unit) && intv(sig.iter(), S / unit) && int2(&comp.view(), if wh { SW * unit } else { S }),
+            "evfin": intv(evar.iter(), S / (unit * unit)),
             "evrfin": intv(evr.iter(), S),
         }));
 
@@ -155,10 +160,12 @@ fn run(case: &Value) -> Vec<Value> {
                 continue;
             }
         };
+        // un-whitened projections are lengths (units of `unit`), whitened ones are dimensionless
+        let sz = if wh { S } else { S / unit };
         ev.push(json!({
             "ev": "proj", "k": k, "wh": wh,
-            "z": mat(&z.view(), S), "zt": mat(&zt.view(), S), "zq": mat(&zq.view(), S),
-            "fin": int2(&z.view(), S) && int2(&zt.view(), S) && int2(&zq.view(), S),
+            "z": mat(&z.view(), sz), "zt": mat(&zt.view(), sz), "zq": mat(&zq.view(), sz),
+            "fin": int2(&z.view(), sz) && int2(&zt.view(), sz) && int2(&zq.view(), sz),
         }));
 
         // transform followed by inverse transform
@@ -166,8 +173,8 @@ fn run(case: &Value) -> Vec<Value> {
         match iv {
             Ok((rx, rq)) => ev.push(json!({
                 "ev": "inv", "k": k, "wh": wh,
-                "rx": mat(&rx.view(), S), "rq": mat(&rq.view(), S),
-                "fin": int2(&rx.view(), S) && int2(&rq.view(), S),
+                "rx": mat(&rx.view(), S / unit), "rq": mat(&rq.view(), S / unit),
+                "fin": int2(&rx.view(), S / unit) && int2(&rq.view(), S / unit),
             })),
             Err(msg) => ev.push(panic_event("inv", &msg)),
         }
